@@ -834,7 +834,9 @@ package channel
 //@ pred lockedHas(l []SubAlloc, id ID) = exists i int :: 0 <= i && i < len(l) && l[i].ID == id
 //@ func (Allocation).SubAlloc
 //@   ensures ok <==> lockedHas(a.Locked, subchannel)
-//@   ensures ok ==> exists i int :: 0 <= i && i < len(a.Locked) && a.Locked[i].ID == subchannel && subAlloc.ID == subchannel &&
+//@   ensures ok ==> subAlloc.ID == subchannel
+//@   ensures ok ==> exists i int :: 0 <= i && i < len(a.Locked) && a.Locked[i].ID == subchannel && subAlloc.Bals == a.Locked[i].Bals && subAlloc.IndexMap == a.Locked[i].IndexMap
+//@   ensures forall i int :: 0 <= i && i < len(a.Locked) && a.Locked[i].ID == subchannel && (forall k int :: 0 <= k && k < i ==> a.Locked[k].ID != subchannel) ==>
 //@           subAlloc.Bals == a.Locked[i].Bals && subAlloc.IndexMap == a.Locked[i].IndexMap
 //@   loop 1
 //@     invariant forall k int :: 0 <= k && k < $i ==> a.Locked[k].ID != subchannel
